@@ -1,6 +1,9 @@
-\* C14 quick: the valid request, every single deviation and all pairs of deviations, x 4 configurations
+\* C14 quick: the valid request, every single deviation (with every pick) and all pairs of deviations,
+\* x 4 configurations, fallback = configured 404
 SPECIFICATION Spec
 CONSTANTS
   MaxDev = 2
+  UseBackends = {"none"}
+  NPick = 6
 INVARIANTS TypeOK Laws Single Emit
 CHECK_DEADLOCK FALSE
